@@ -12,7 +12,7 @@ def verdict(plan, text):
     toks = vspec.tokens_of_text(text)
     r = vspec.evaluate(plan['spec'], toks, 'main')
     if r['fault']:
-        run = (None, None, None) if r['fault'] in 'stpamw' else (-11 if r['fault'] == 'v' else -9, '', '')
+        run = (None, None, None) if r['fault'] in 'sthpamw' else (-11 if r['fault'] == 'v' else -9, '', '')
     else:
         run = (r['exit'], r['out'], r['err'])
     run_cc = golden_cc = None
